@@ -174,6 +174,31 @@ CLAIMED = {
    note="xarray's own semantics (merge, sel) are trusted. Don't-cares: per-variable vs per-axis index naming after the merge, "
         "arrays produced by functions without MapSpec, tuple-valued coordinates selected by value.",
    technique="TLA+ labelling model checked by TLC; universe export compared against real xarray datasets"),
+ "C11": dict(
+   category="model_checking", design_ref="6 C11",
+   text="SubPipeline.tla: Computable(d, S, I) and NeededSet(d, S, I) (backward closure from S stopping at I, via "
+        "PipelineStatic!NeededFor) with laws (least dependency-closed set, cut-off, Computable <=> denotation defined, "
+        "substitution); TLC checks them over the MC_PipelineCall universe (plus nullary / all-defaults / all-bound options), "
+        "all non-empty S and all cuts I, explores the run rule with deadlock checking, and exports (desc, S, I, computable, "
+        "needed); each case runs through subpipeline().map, map(output_names=S) and map(auto_subpipeline=True); TLC "
+        "validates the recorded MapRun events (exactly the needed functions ran, values = denotation with I substituted, "
+        "non-computable requests rejected naming a missing name). Random DAGs and mapped pipelines with supplied array "
+        "intermediates go through the same routes.",
+   note="Don't-cares: provided names no needed function reads (tests pin 'Got extra inputs'), a provided output of a tuple "
+        "producer whose sibling is still needed, rejections with both surplus and missing names.",
+   technique="TLA+ needed-set semantics checked by TLC; universe export; TLC trace validation of restricted runs"),
+ "C12": dict(
+   category="model_checking", design_ref="6 C12",
+   text="Validity.tla: Valid as a conjunction of twelve named clauses and a Prepare state machine ordered as prepare_run / "
+        "RunInfo.create with an abstract disk; invariants RejectIsPure, NoCodeBeforeAccept, OnlyReject, ValidAccepted; TLC "
+        "exhibits the impure ordering (storage name checked after DumpRunInfo) for the as-written switch and passes for the "
+        "repaired one; 11 single-fault mutation operators are applied in TLA+ to the valid cases of the C01/C02 universes "
+        "(mutants that stay valid are discarded and counted) and exported; every mutant is constructed / run for real against "
+        "a byte-for-byte snapshot of a prepared run folder: rejected iff not Valid, no user call, folder unchanged. Twelve "
+        "pytest.raises examples of the repository calibrate the clauses; random larger mutants are judged by TLC trace "
+        "validation.",
+   note="Exception class is not compared (the property says 'raises'); a different pipeline continuing a folder may be refused.",
+   technique="TLA+ validity clauses + prepare state machine checked by TLC; mutant universe export compared against the code"),
 }
 NOT_YET = "check not built yet in this round (specification module planned in DESIGN.md section 6)"
 
